@@ -57,7 +57,10 @@ LEVEL_TEXT = (
     "hoisted conditions, conditional expressions, module-level constants and HTTPStatus members read the same), locals "
     "are followed through their reaching definitions, and one level of private helpers is followed (helpers that "
     "return the value, helpers that decide the condition, helpers that perform the store; a private helper's parameter "
-    "is judged by what every caller passes). It does not decide that "
+    "is judged by what every caller passes; a straight-line private method or local function whose only return is the "
+    "ClosingIterator call is read in the caller's terms; the buffering of make_sequence may live in one private method "
+    "that it calls; a local with several definitions is evaluated from those the status x method valuation lets reach "
+    "the use). A helper that returns the body together with a flag as a tuple is not followed (ANALYSIS-ERROR). It does not decide that "
     "iri_to_uri emits only ASCII, that _RangeWrapper yields exactly the announced number of bytes, nor exception paths "
     "inside close callbacks, nor that a user does not register the same callback (or the body's close) twice with call_on_close."
 )
@@ -1229,12 +1232,108 @@ def _must_be_bodyless(s: Sigma) -> bool:
     return s.method == "HEAD" or 100 <= s.status < 200 or s.status in (204, 304)
 
 
-def _closing_iterator_arg(F: Fn, e: ast.AST | None) -> tuple[ast.AST | None, ast.AST | None] | None:
-    """`ClosingIterator(X, CB)` -> (X, CB); None when e is not that call."""
+class _Subst(ast.NodeTransformer):
+    """a helper's expression rewritten into the caller's terms: parameters -> argument expressions, single-assignment
+    locals of a straight-line helper -> their values."""
+
+    def __init__(self, env: dict[str, ast.AST], keep: set[str]):
+        self.env, self.keep, self.unknown = env, keep, []  # type: ignore[var-annotated]
+
+    def visit_Name(self, n: ast.Name) -> ast.AST:
+        if n.id in self.env:
+            return self.env[n.id]
+        if n.id not in self.keep:
+            self.unknown.append(n.id)
+        return n
+
+    def visit_Lambda(self, n: ast.Lambda) -> ast.AST:
+        self.unknown.append("<lambda>")
+        return n
+
+
+def _wrapping_helper(F: Fn, e: ast.Call, depth: int) -> tuple[ast.AST | None, ast.AST | None] | None:
+    """`self._wrap(X)` / `_wrap(X, self.close)` where the package helper's only return is `ClosingIterator(<param>, ...)`
+    -> (X, CB) written in the caller's terms.  None when the callee is no such helper; AnalysisError when the callee does
+    return a ClosingIterator but in a shape that cannot be carried over to the caller (never a finding)."""
+    callee = callee_of(F, e)
+    if callee is None or callee is F.fi or any(isinstance(x, (ast.Yield, ast.YieldFrom)) for x in walk_no_nested(callee.node)):
+        return None
+    Fq = fn_of(F.repo, callee)
+    rets = astq.returns_of(callee.node)
+    inner = []
+    for r in rets:
+        for v, vn in _expansions(Fq, Fq.node(r), r.value):
+            inner.append((r, v, _closing_iterator_arg(Fq, v, depth + 1)))
+    if not any(ca is not None for _, _, ca in inner):
+        return None
+    why = None
+    body = [s_ for s_ in callee.node.body if not (isinstance(s_, ast.Expr) and isinstance(s_.value, ast.Constant))]  # type: ignore[attr-defined]
+    if len(inner) != 1 or len(rets) != 1:
+        why = f"{len(inner)} returned values"
+    elif not all(isinstance(s_, (ast.Assign, ast.AnnAssign, ast.Return)) for s_ in body):
+        why = "the helper is not straight-line code"
+    if why is None:
+        env: dict[str, ast.AST] = {}
+        args = call_args(callee, e)
+        ps = list(callee.params)
+        is_method = callee.cls is not None and isinstance(e.func, ast.Attribute) and "staticmethod" not in callee.decorators
+        a_ = callee.node.args  # type: ignore[attr-defined]
+        pos = [*a_.posonlyargs, *a_.args]
+        defaults: dict[str, ast.AST] = {p.arg: d for p, d in zip(pos[len(pos) - len(a_.defaults):], a_.defaults)}
+        defaults.update({p.arg: d for p, d in zip(a_.kwonlyargs, a_.kw_defaults) if d is not None})
+        keep: set[str] = set()
+        for i, p in enumerate(ps):
+            if i == 0 and is_method:
+                if astq.is_name(e.func.value, "self") and p == "self":  # type: ignore[attr-defined]
+                    keep.add(p)
+                else:
+                    env[p] = e.func.value  # type: ignore[attr-defined]
+            elif p in args:
+                env[p] = args[p]
+            elif p in defaults and isinstance(defaults[p], ast.Constant):
+                env[p] = defaults[p]
+        if any(isinstance(a, ast.Starred) for a in e.args) or any(k.arg is None for k in e.keywords) or a_.vararg or a_.kwarg:
+            why = "star arguments"
+        keep |= set(callee.module.assigns) | set(getattr(callee.module, "imports", {}) or {})
+        if ".<locals>." in callee.qualname:
+            # a function defined inside the caller: its free names are the caller's own names, read when it is called
+            bound = set(ps) | {d.name for n_ in Fq.cfg.nodes for d in Fq.rd.gen[n_.id]}
+            keep |= {x.id for x in ast.walk(callee.node) if isinstance(x, ast.Name) and x.id not in bound}
+        sub = _Subst(env, keep)
+        for s_ in body:
+            if why is not None or isinstance(s_, ast.Return):
+                break
+            tg = s_.targets[0] if isinstance(s_, ast.Assign) and len(s_.targets) == 1 else s_.target if isinstance(s_, ast.AnnAssign) else None
+            if not isinstance(tg, ast.Name) or getattr(s_, "value", None) is None or tg.id in env or tg.id in ps:
+                why = f"`{norm(s_)[:60]}` in the helper"
+                break
+            import copy as _copy
+            env[tg.id] = sub.visit(_copy.deepcopy(s_.value))
+        if why is None:
+            import copy as _copy
+            x, cb = inner[0][2]  # type: ignore[misc]
+            x2 = sub.visit(_copy.deepcopy(x)) if x is not None else None
+            cb2 = sub.visit(_copy.deepcopy(cb)) if cb is not None else None
+            unknown = [u for u in sub.unknown if u not in __builtins_names__]
+            if not unknown:
+                _saw(callee)
+                return x2, cb2
+            why = f"names {sorted(set(unknown))} of the helper have no meaning in the caller"
+    raise AnalysisError(f"{F.fi.qualname}: `{norm(e)[:80]}` lands in {callee.qualname}, which returns a ClosingIterator, but its arguments cannot be carried over to the caller: {why} (shape not understood)")
+
+
+__builtins_names__ = set(dir(__import__("builtins")))
+
+
+def _closing_iterator_arg(F: Fn, e: ast.AST | None, depth: int = 0) -> tuple[ast.AST | None, ast.AST | None] | None:
+    """`ClosingIterator(X, CB)` -> (X, CB), also through a private helper whose return is that call (X, CB then in the
+    caller's terms); None when e is not that call."""
     if isinstance(e, ast.Call) and (F.call_fq(e) or "").endswith("wsgi.ClosingIterator"):
         x = astq.arg_or_kw(e, 0, "iterable")
         cb = astq.arg_or_kw(e, 1, "callbacks")
         return x, cb
+    if isinstance(e, ast.Call) and depth < 2:
+        return _wrapping_helper(F, e, depth)
     return None
 
 
@@ -2304,11 +2403,10 @@ def _call_loops(F: Fn, env: dict[str, str] | None = None) -> list[tuple[t.Any, s
             if m_ is not None:
                 out.append((n, m_[0]))
     for n in F.cfg.nodes:
-        if n.kind == "loop" and isinstance(n.ast, ast.For) and isinstance(n.ast.target, ast.Name):
-            attr = _self_attr_iterated(F, n, n.ast.iter, 0, env)
-            tgt = n.ast.target.id
-            if attr is not None and any(isinstance(c.func, ast.Name) and c.func.id == tgt for s_ in n.ast.body for c in astq.calls(s_, nested=False)):
-                out.append((n, attr))
+        if n.kind == "loop" and isinstance(n.ast, ast.For):
+            fe = _for_entry(F, n, env)
+            if fe is not None and any(fe[1](c) for s_ in n.ast.body for c in astq.calls(s_, nested=False)):
+                out.append((n, fe[0]))
         elif n.kind == "join" and isinstance(n.ast, ast.While):
             m_ = _index_loop_attr(F, n, env)
             if m_ is not None:
@@ -2316,11 +2414,83 @@ def _call_loops(F: Fn, env: dict[str, str] | None = None) -> list[tuple[t.Any, s
     return out
 
 
+def _for_entry(F: Fn, n, env: dict[str, str] | None):
+    """a `for` loop that visits the entries of self.<attr> once each, in order: (attr, is_entry_call) where
+    is_entry_call(call) says that the call invokes the entry of the current iteration.  Shapes: `for f in XS`,
+    `for i, f in enumerate(XS)`, `for i in range(len(XS))` with the entry read as `XS[i]` (XS the attribute, a copy or a
+    local alias of it; the entry possibly taken into a local in the body first)."""
+    L = n.ast
+    tg, it = L.target, L.iter
+    if isinstance(tg, ast.Name):
+        attr = _self_attr_iterated(F, n, it, 0, env)
+        if attr is not None:
+            return attr, (lambda c, f=tg.id: isinstance(c.func, ast.Name) and c.func.id == f)
+    is_call = isinstance(it, ast.Call) and isinstance(it.func, ast.Name) and not it.keywords
+    if is_call and it.func.id == "enumerate" and len(it.args) == 1 and isinstance(tg, ast.Tuple) and len(tg.elts) == 2 and isinstance(tg.elts[1], ast.Name):
+        attr = _self_attr_iterated(F, n, it.args[0], 0, env)
+        if attr is not None:
+            return attr, (lambda c, f=tg.elts[1].id: isinstance(c.func, ast.Name) and c.func.id == f)
+    if is_call and it.func.id == "range" and isinstance(tg, ast.Name):
+        a = list(it.args)
+        partial = None
+
+        def const_int(x: ast.AST, v: int) -> bool:
+            return isinstance(x, ast.Constant) and type(x.value) is int and x.value == v
+
+        if len(a) == 3:
+            if not const_int(a[2], 1):
+                partial = f"step `{norm(a[2])}`"
+            a = a[:2]
+        if len(a) == 2:
+            if not const_int(a[0], 0):
+                partial = f"start `{norm(a[0])}`"
+            a = a[1:]
+        if len(a) == 1 and isinstance(a[0], ast.Call) and isinstance(a[0].func, ast.Name) and a[0].func.id == "len" and len(a[0].args) == 1:
+            attr = _self_attr_iterated(F, n, a[0].args[0], 0, env)
+            idx = tg.id
+            if attr is None:
+                return None
+            if partial is not None:
+                return attr, (lambda c: True), f"the index does not run over every entry ({partial})"
+            stores_idx = [x for s_ in L.body for x in [s_, *walk_no_nested(s_)] if isinstance(x, ast.Name) and x.id == idx and isinstance(x.ctx, ast.Store)]
+            if stores_idx:
+                return None
+
+            def entry(e: ast.AST | None) -> bool:
+                if not (isinstance(e, ast.Subscript) and astq.is_name(e.slice, idx)):
+                    return False
+                cn = F.cfg.node_of(e)
+                return _self_attr_iterated(F, cn if cn is not None else n, e.value, 0, env) == attr
+
+            def is_entry_call(c: ast.Call) -> bool:
+                f = c.func
+                if entry(f):
+                    return True
+                if isinstance(f, ast.Name):
+                    cn = F.cfg.node_of(c)
+                    bs = bindings(F, cn, f) if cn is not None else []
+                    return len(bs) == 1 and bs[0].kind == "value" and bs[0].path == () and entry(bs[0].expr) and any(bs[0].node is F.cfg.node_of(s_) for s_ in L.body)
+                return False
+
+            return attr, is_entry_call
+    return None
+
+
 def _next_loop_attr(F: Fn, head, env: dict[str, str] | None) -> tuple[str, bool, str] | None:
     """`it = iter(xs)` ... `while (f := next(it, END)) is not END: f()`: (attribute of self that xs is, the loop calls every
     entry once and has no other way out, why not); None when the loop is not of that kind."""
     W = head.ast
     t_ = W.test
+    body = list(W.body)
+    if isinstance(t_, ast.Constant) and t_.value is True and len(body) >= 2:
+        # `while True: f = next(it, END)` / `if f is END: break` / ... : the same loop with the test spelled in the body
+        st0, st1 = body[0], body[1]
+        tgt0 = st0.targets[0] if isinstance(st0, ast.Assign) and len(st0.targets) == 1 else None
+        if isinstance(tgt0, ast.Name) and isinstance(st1, ast.If) and not st1.orelse and len(st1.body) == 1 and isinstance(st1.body[0], ast.Break):
+            c1 = st1.test
+            if isinstance(c1, ast.Compare) and len(c1.ops) == 1 and isinstance(c1.ops[0], ast.Is) and astq.is_name(c1.left, tgt0.id):
+                t_ = ast.Compare(left=ast.NamedExpr(target=tgt0, value=st0.value), ops=[ast.IsNot()], comparators=[c1.comparators[0]])
+                body = body[2:]
     if not (isinstance(t_, ast.Compare) and len(t_.ops) == 1 and isinstance(t_.ops[0], ast.IsNot) and isinstance(t_.left, ast.NamedExpr) and isinstance(t_.left.target, ast.Name)):
         return None
     f, v, end = t_.left.target.id, t_.left.value, t_.comparators[0]
@@ -2329,7 +2499,6 @@ def _next_loop_attr(F: Fn, head, env: dict[str, str] | None) -> tuple[str, bool,
     attr = _self_attr_iterated(F, head, v.args[0], 0, env)  # iter(self.attr) bound to the local before the loop
     if attr is None:
         return None
-    body = list(W.body)
     exits = [norm(x) for s_ in body for x in [s_, *walk_no_nested(s_)] if isinstance(x, (ast.Break, ast.Return, ast.Raise, ast.Continue))]
     if exits or W.orelse:
         return attr, False, f"early exits in the loop: {exits}"
@@ -2405,6 +2574,30 @@ def _expansions(F: Fn, at, e: ast.AST | None, depth: int = 0, names: bool = True
     return [(e, at)]
 
 
+def _ifexp_conditions(F: Fn, at, e: ast.AST | None, leaf: ast.AST | None, depth: int = 0) -> list[tuple[ast.AST, bool, t.Any]] | None:
+    """the tests of the conditional expressions (with the side taken and the node that evaluates them) under which the
+    expansion `leaf` of e is the value; None when leaf is not among the expansions of e."""
+    if e is leaf:
+        return []
+    if depth > 6 or e is None:
+        return None
+    if isinstance(e, ast.IfExp):
+        for side, val in ((e.body, True), (e.orelse, False)):
+            sub = _ifexp_conditions(F, at, side, leaf, depth + 1)
+            if sub is not None:
+                return [(e.test, val, at), *sub]
+        return None
+    if isinstance(e, ast.Call) and norm(e.func).endswith("cast") and len(e.args) == 2:
+        return _ifexp_conditions(F, at, e.args[1], leaf, depth + 1)
+    if isinstance(e, ast.Name):
+        for b in bindings(F, at, e):
+            if b.kind == "value" and b.path == () and b.node is not None and b.expr is not None:
+                sub = _ifexp_conditions(F, b.node, b.expr, leaf, depth + 1)
+                if sub is not None:
+                    return sub
+    return None
+
+
 def _loop_runs_all(F: Fn, attr: str | None, env: dict[str, str] | None = None) -> tuple[bool, str, ast.AST | None]:
     """a `for f in self.<attr>: f()` loop that every normal path passes and that has no early exit."""
     loops = [n for n, a in _call_loops(F, env) if attr is None or a == attr]
@@ -2416,11 +2609,17 @@ def _loop_runs_all(F: Fn, attr: str | None, env: dict[str, str] | None = None) -
         always = F.cfg.exit.id not in F.cfg.reach(avoid_nodes=[lp])
         good = m_ is not None and m_[1]
         return good and always, f"loop `while {norm(lp.ast.test)}` calls each entry once, in order, with no other way out: {good}{' (' + m_[2] + ')' if m_ and m_[2] else ''}; on every normal path: {always}", lp.ast
-    tgt = lp.ast.target
+    fe = _for_entry(F, lp, env)
+    if fe is not None and len(fe) > 2:
+        return False, f"loop `{lp.text()}`: {fe[2]}", lp.ast
+    if fe is not None:
+        is_entry_call = fe[1]
+    else:  # a loop over a generator helper: the loop variable is the entry
+        is_entry_call = lambda c, f=lp.ast.target.id: isinstance(c.func, ast.Name) and c.func.id == f  # noqa: E731
     early = [norm(x) for s in lp.ast.body for x in [s, *walk_no_nested(s)] if isinstance(x, (ast.Break, ast.Return, ast.Raise))]
     skipped = [norm(x) for s in lp.ast.body for x in [s, *walk_no_nested(s)] if isinstance(x, ast.Continue)]
     # the call happens in every iteration: from the loop head's body edge, the head is not reached again without passing a call
-    call_nodes = [F.cfg.node_of(c) for s in lp.ast.body for c in astq.calls(s, nested=False) if isinstance(c.func, ast.Name) and c.func.id == tgt.id]
+    call_nodes = [F.cfg.node_of(c) for s in lp.ast.body for c in astq.calls(s, nested=False) if is_entry_call(c)]
     cns = [n for n in call_nodes if n is not None]
     starts = [n for n in F.cfg.succ(lp, "T") if not any(n is c for c in cns)]
     every_iter = bool(cns) and (not starts or lp.id not in F.cfg.reach(starts, avoid_nodes=cns))
@@ -2476,6 +2675,16 @@ def _list_has(F: Fn, at, e: ast.AST | None, leaf, absent, depth: int = 0) -> tup
         return _list_has(F, at, e.args[1], leaf, absent, depth + 1)
     if isinstance(e, ast.BoolOp) and isinstance(e.op, ast.Or) and all(is_empty_literal(x) for x in e.values[1:]):
         return _list_has(F, at, e.values[0], leaf, absent, depth + 1)  # `xs or ()`: falsy means nothing to hold
+    if isinstance(e, ast.Call) and not e.keywords and e.args and (F.call_fq(e) or "") == "itertools.chain":
+        # chain(a, b, ...): the items of a, then of b, ... - a concatenation
+        why = "no argument"
+        for x in e.args:
+            if isinstance(x, ast.Starred):
+                return False, f"`{norm(e)[:50]}`: starred argument (not modelled)"
+            ok, why = _list_has(F, at, x, leaf, absent, depth + 1)
+            if ok:
+                return True, f"{why} in `{norm(e)[:50]}`"
+        return False, why
     if isinstance(e, ast.Call) and depth < 6:
         # one level of helper extraction: the list is built by a package helper; what the helper says about its
         # parameters is read as a statement about the arguments passed here
@@ -2484,19 +2693,29 @@ def _list_has(F: Fn, at, e: ast.AST | None, leaf, absent, depth: int = 0) -> tup
             amap = call_args(callee, e)
             Fc = fn_of(F.repo, callee)
 
-            def back(F2: Fn, at2, x: ast.AST) -> ast.AST | None:
-                """x with the helper's (unrebound) parameters replaced by the caller's arguments; None if x mentions other locals."""
-                if F2 is not Fc:
+            def back(F2: Fn, at2, x: ast.AST, lvl: int = 0) -> ast.AST | None:
+                """x with the helper's (unrebound) parameters replaced by the caller's arguments and its singly, plainly
+                bound locals by their values (in the caller's terms as well); None if x mentions other locals."""
+                if F2 is not Fc or lvl > 3:
                     return None
+                local_vals: dict[str, ast.AST] = {}
                 for n_ in ast.walk(x):
                     if isinstance(n_, ast.Name) and isinstance(n_.ctx, ast.Load):
-                        ds = Fc.rd.reaching(at2, n_.id)
+                        ds = list(Fc.rd.reaching(at2, n_.id))
                         if ds and not (all(d.kind == "param" for d in ds) and n_.id in amap):
+                            d = ds[0]
+                            if len(ds) == 1 and d.kind in ("assign", "walrus") and d.index is None and d.value is not None and d.node is not None:
+                                y = back(F2, d.node, d.value, lvl + 1)
+                                if y is not None:
+                                    local_vals[n_.id] = y
+                                    continue
                             return None
                 fresh = ast.parse(ast.unparse(x), mode="eval").body
 
                 class Sub(ast.NodeTransformer):
                     def visit_Name(self, n_: ast.Name):  # noqa: N802
+                        if n_.id in local_vals:
+                            return local_vals[n_.id]
                         return amap[n_.id] if n_.id in amap and Fc.rd.reaching(at2, n_.id) else n_
 
                 return Sub().visit(fresh)
@@ -2553,6 +2772,9 @@ def _list_has(F: Fn, at, e: ast.AST | None, leaf, absent, depth: int = 0) -> tup
         everyone = _defs_of(F, e.id)
         whys = set()
         for d in defs:
+            if d.kind == "param" and F.cfg.entry.succs and leaf(F, F.cfg.entry.succs[0][0], e):
+                whys.add(f"the parameter `{e.id}` itself")  # still unrebound on this path: it is X
+                continue
             if d.kind in ("assign", "walrus") and d.index is None and d.value is not None and d.node is not None:
                 ok, why = _list_has(F, d.node, d.value, leaf, absent, depth + 1)
                 if ok:
@@ -2766,6 +2988,12 @@ def _r56(ctx: Ctx) -> None:
                 continue
             g = _gtext(F, vn)  # where the value is produced: the return itself, or the binding of the result variable
             pt = guard_has(AL.guard_set(vn), "self.direct_passthrough", True)
+            if not pt:
+                # chosen by a conditional expression: `self.response if self.direct_passthrough else ...`
+                from ..guards import canon as _canon
+
+                conds = _ifexp_conditions(F, rn, r.value, v) or []
+                pt = any(_canon(AL.expand(t_, n_)) == (_canon(ast.parse("self.direct_passthrough", mode="eval").body)[0], val_ == _canon(ast.parse("self.direct_passthrough", mode="eval").body)[1]) for t_, val_, n_ in conds)
             what = norm(v) if v is not None else "None"
             cons = f"raw return {what} under direct_passthrough" if pt and is_self_attr(v, "response") else f"raw return {what} under {g}"
             ctx.ob("R5.6", f"get_app_iter: `{norm(r)}` chains Response.close", False,
@@ -2852,6 +3080,8 @@ def _r56(ctx: Ctx) -> None:
         nt = none_test(x)
         if nt is not None and leaf_own(F_, at_, nt[0]):
             return nt[1] != "T"
+        if isinstance(x, (ast.Call, ast.NamedExpr)) and leaf_own(F_, at_, x):
+            return False  # `if getattr(iterable, "close", None):` - the lookup itself tested for truth
         return None
 
     keeps, owns = [], []
@@ -2864,7 +3094,11 @@ def _r56(ctx: Ctx) -> None:
             if not any(d.node is not None and d.node is not st and d.node.id in later for d in _defs_of(Fi, v.id)) and Fi.rd.reaching(Fi.cfg.exit, v.id):
                 use = Fi.cfg.exit
         for leaf_, absent_, acc in ((leaf_cb, absent_cb, keeps), (leaf_own, absent_own, owns)):
-            res = _list_has(Fi, use, v, leaf_, absent_)
+            # what the local holds at the store itself decides first (one of several stores, each on its own branch: the
+            # paths through the other stores are not this store's business); additions after the store are the fallback
+            res = _list_has(Fi, st, v, leaf_, absent_)
+            if not res[0] and use is not st:
+                res = _list_has(Fi, use, v, leaf_, absent_)
             if not res[0]:
                 # added in place through the attribute itself after the store: `self._callbacks.insert(0, close)`
                 evs = []
@@ -2877,6 +3111,15 @@ def _r56(ctx: Ctx) -> None:
                         evs.append(cn)
                     elif f.attr == "extend" and _list_has(Fi, cn, c.args[-1], leaf_, absent_)[0]:
                         evs.append(cn)
+                for n_ in Fi.cfg.nodes:
+                    # `self._callbacks[:0] = [close]` / `self._callbacks[len(self._callbacks):] = [...]`: insertion by slice
+                    if isinstance(n_.ast, ast.Assign) and len(n_.ast.targets) == 1 and isinstance(n_.ast.targets[0], ast.Subscript) and is_self_attr(n_.ast.targets[0].value, cattr):
+                        sl = n_.ast.targets[0].slice
+                        ins = isinstance(sl, ast.Slice) and sl.step is None and (
+                            (sl.upper is not None and isinstance(sl.upper, ast.Constant) and sl.upper.value == 0 and (sl.lower is None or (isinstance(sl.lower, ast.Constant) and sl.lower.value == 0)))
+                            or (sl.upper is None and isinstance(sl.lower, ast.Call) and isinstance(sl.lower.func, ast.Name) and sl.lower.func.id == "len" and len(sl.lower.args) == 1 and is_self_attr(sl.lower.args[0], cattr)))
+                        if ins and _list_has(Fi, n_, n_.ast.value, leaf_, absent_)[0]:
+                            evs.append(n_)
                 others = [o for o in stores if o is not st]
                 if evs and Fi.cfg.exit.id not in Fi.cfg.reach(st, avoid_nodes=evs + others, avoid_edges=_absent_edges(Fi, absent_)):
                     res = (True, f"added to self.{cattr} in place after the store")
@@ -2895,6 +3138,16 @@ def _r56(ctx: Ctx) -> None:
             a = _self_attr_alias(Fo, Fo.node(c), c.func.value)
             if a is not None:
                 regs_.append((c, a))
+    if len(coc.params) > 1:
+        # `self._on_close += [func]`: the in-place extension by a one-item display
+        for n_ in Fo.cfg.nodes:
+            st_ = n_.ast
+            if isinstance(st_, ast.AugAssign) and isinstance(st_.op, ast.Add) and isinstance(st_.value, (ast.List, ast.Tuple)) and len(st_.value.elts) == 1 and isinstance(st_.target, (ast.Attribute, ast.Name)):
+                x = st_.value.elts[0]
+                is_param = isinstance(x, ast.Name) and x.id == coc.params[1] and all(d.kind == "param" for d in Fo.rd.reaching(n_, x.id))
+                a = _self_attr_alias(Fo, n_, st_.target)
+                if is_param and a is not None:
+                    regs_.append((st_, a))
     if not regs_ and len(coc.params) > 1:
         # the append lives in a private helper that is handed the function
         for c in astq.calls(coc.node, nested=False):
@@ -2935,7 +3188,26 @@ def _r56(ctx: Ctx) -> None:
 
     ms = method(repo, resp, "make_sequence")
     Fm = fn_of(repo, ms)
-    repl = [n for n in Fm.cfg.nodes if isinstance(n.ast, ast.Assign) and any(is_self_attr(x, "response") or (isinstance(x, (ast.Tuple, ast.List)) and any(is_self_attr(y, "response") for y in x.elts)) for x in n.ast.targets)]
+
+    def replacements(Fx: Fn) -> list[t.Any]:
+        return [n for n in Fx.cfg.nodes if isinstance(n.ast, ast.Assign) and any(is_self_attr(x, "response") or (isinstance(x, (ast.Tuple, ast.List)) and any(is_self_attr(y, "response") for y in x.elts)) for x in n.ast.targets)]
+
+    repl = replacements(Fm)
+    if not repl:
+        # the buffering was extracted: the method of self that make_sequence calls and that replaces self.response is
+        # judged in its place (capture, replacement and registration all live there)
+        moved = []
+        for c in astq.calls(ms.node, nested=False):
+            callee = callee_of(Fm, c)
+            if callee is not None and callee is not ms and isinstance(c.func, ast.Attribute) and astq.is_name(c.func.value, "self") and callee.cls is not None and callee.params[:1] == ["self"]:
+                Fq = fn_of(repo, callee)
+                if replacements(Fq) and not any(x is Fq for x in moved):
+                    moved.append(Fq)
+        if len(moved) == 1:
+            Fm = moved[0]
+            ms = Fm.fi
+            ctx.saw(ms)
+            repl = replacements(Fm)
     ctx.floor("R5.6", "replacements of self.response in make_sequence", len(repl), 1)
 
     def captured_by_helper(rp_) -> str | None:
@@ -3020,6 +3292,15 @@ def _r56(ctx: Ctx) -> None:
                 if isinstance(tg, ast.Name) and isinstance(v, ast.Call) and isinstance(v.func, ast.Name) and v.func.id == "getattr" and len(v.args) >= 2 and _self_attr_alias(Fm, n, v.args[0]) == "response" and astq.const_str(v.args[1]) == "close":
                     caps.append(n)
         via = captured_by_helper(rp) if not caps else None
+        if not caps and via is None:
+            # `close, self.response = getattr(self.response, "close", None), <new body>`: the right-hand side is evaluated
+            # as a whole before anything is stored, so the getattr still sees the old iterable
+            tg_ = rp.ast.targets[0] if len(rp.ast.targets) == 1 else None
+            v_ = rp.ast.value
+            if isinstance(tg_, (ast.Tuple, ast.List)) and isinstance(v_, (ast.Tuple, ast.List)) and len(tg_.elts) == len(v_.elts) and not any(isinstance(x, ast.Starred) for x in [*tg_.elts, *v_.elts]):
+                for x_, y_ in zip(tg_.elts, v_.elts):
+                    if isinstance(x_, ast.Name) and close_of_body(rp, y_):
+                        via = x_.id
         tried_name = next(iter(sorted(try_caps)), None) if not caps and via is None else None
         ok = bool(caps) or via is not None or tried_name is not None
         fact = "the old iterable's close is not captured before the replacement"
